@@ -218,3 +218,10 @@ def run_case(desc):
         out.cls("counters-unavailable")
     out.nontrivial = bool(nc >= 1 and (nc >= 2 or unassigned > 0 or act.get("merged") or act.get("multi") or act.get("cleaned")))
     return out
+
+
+def extra_engine(tier, seed, work):
+    """rule-based state machine over ONE SBC object: any sequence of (structure, parameter set) calls must give what a fresh
+    object gives for the same arguments (vlib/stateful_sbc.py)"""
+    from vlib import stateful_sbc
+    return stateful_sbc.campaign(ID, "sbc", seed, 8 if tier == "quick" else 80)
